@@ -390,8 +390,10 @@ func (p *ReverseProxy) clusterInvoke(srv *BfeServer, cluster *bfe_cluster.BfeClu
 			allowRetry = checkAllowRetry(cluster.RetryLevel(), outreq)
 
 			// if error is caused by backend server
-			rerr := err.(bfe_http.WriteRequestError)
-			if !rerr.CheckTargetError(request.RemoteAddr) {
+			// Note: err may be bfe_http.WriteRequestError or bfe_fcgi.WriteRequestError
+			if rerr, ok := err.(interface {
+				CheckTargetError(addr net.Addr) bool
+			}); ok && !rerr.CheckTargetError(request.RemoteAddr) {
 				backend.OnFail(cluster.Name)
 			}
 
